@@ -13,7 +13,14 @@
 
    The proofs compute with the generated terms, so a change of a method body
    that changes the generated term makes the lemma named after the method
-   fail. *)
+   fail.  (The translator normalises the usual behaviour-preserving rewrites
+   away, see harness/gen_views.py; TexNode.find_all is proved for two texts,
+   the __str__ methods and TexNode.__init__ by computation only, whatever
+   their text.)
+
+   TexNode.__init__ and the __str__ methods are translated as well:
+   gen_N_init_ok / gen_str_*_ok prove that they are the interpreter's
+   primitive reading of `TexNode(x)` and `str(x)`. *)
 From Coq Require Import List NArith ZArith Bool Lia Arith Permutation.
 From TexModel Require Import Base Tables Chars Tokenizer Tree Reader Views ViewDSL ViewGen.
 From TexProofs Require Import ViewsProofs ConsTop StructProofs NodeProofs.
@@ -47,6 +54,7 @@ Lemma for_loop_cons body x v l en h acc :
   for_loop body x (v :: l) en h acc =
   match body (set_var en x v) h acc with
   | XNormal en' h' acc' => for_loop body x l en' h' acc'
+  | XBreak en' h' acc' => XNormal en' h' acc'
   | r => r
   end.
 Proof. reflexivity. Qed.
@@ -233,6 +241,7 @@ Qed.
    run_tm. *)
 Definition run_block := exec_block.
 Definition run_tm := eval.
+Definition run_args := eval_args.
 
 Section Steps.
 Variable c : cls.
@@ -320,6 +329,8 @@ Lemma exec_for2 x y t b en h acc :
       | _ => XUnsup
       end).
 Proof. reflexivity. Qed.
+Lemma exec_break en h acc : XS SBreak en h acc = XBreak en h acc.
+Proof. reflexivity. Qed.
 Lemma exec_try t e hd en h acc :
   XS (STryReturn t e hd) en h acc
   = match EV_ t en h with
@@ -361,6 +372,41 @@ Lemma eval_chainstar xs st en h :
       | x => x
       end).
 Proof. reflexivity. Qed.
+Lemma eval_join sep x b t1 en h :
+  EV_ (TJoin sep x b t1) en h
+  = match EV_ t1 en h with
+    | EV v h1 =>
+      match iter_of v with
+      | Some l =>
+        of_ares (map_loop (run_tm c f s k b) x l en h1) (fun vs h2 =>
+          if heap_eqb h1 h2 then lift (option_map VStr (join_strs sep vs)) h2 else EUnsup)
+      | None => EUnsup
+      end
+    | x => x
+    end.
+Proof. cbn [eval]. destruct (eval c f s k t1 en h) as [v h1| | |]; reflexivity. Qed.
+Lemma eval_format lits xs en h :
+  EV_ (TFormat lits xs) en h
+  = of_ares (run_args c f s k xs en h)
+            (fun vs h1 => lift (option_map VStr (format_strs lits vs)) h1).
+Proof. reflexivity. Qed.
+Lemma run_args_nil en h : run_args c f s k TNil en h = AV [] h.
+Proof. reflexivity. Qed.
+Lemma run_args_cons t xs en h :
+  run_args c f s k (TCons t xs) en h
+  = match run_tm c f s k t en h with
+    | EV v h1 =>
+      match run_args c f s k xs en h1 with
+      | AV vs h2 => AV (v :: vs) h2
+      | x => x
+      end
+    | EX e h1 => AX e h1
+    | EUnsup => AUnsup
+    | EFuel => AFuel
+    end.
+Proof. reflexivity. Qed.
+Lemma run_tm_app t en h : run_tm c f s k t en h = EV_ t en h.
+Proof. reflexivity. Qed.
 Lemma run_tm_eq t : run_tm c f s k t = EV_ t.
 Proof. reflexivity. Qed.
 End Steps.
@@ -368,13 +414,14 @@ End Steps.
 Ltac ev :=
   cbn [blk eval eval_args tms_of with_val lookup nth_error lift lift_b
        of_outcome of_ares fst snd bind bind_params option_map
-       m_params m_kwargs m_nlocals m_gen m_tolist m_prop set_var repeat app
+       m_params m_pnames m_kwargs m_nlocals m_gen m_tolist m_prop set_var repeat app kw_clash existsb
        iter_of truthy negb andb orb inst inst1 Bool.eqb
        gen_TexExpr_all gen_TexExpr_children gen_TexExpr_contents gen_TexExpr_match gen_TexEnv_match
        gen_TexNode_all gen_TexNode_children gen_TexNode_contents gen_TexNode_descendants
        gen_TexNode_priv_descendants gen_TexNode_text gen_TexNode_iter gen_TexNode_getitem
        gen_TexNode_match gen_TexNode_find_all gen_TexNode_find gen_TexNode_count
-       gen_TexNode_getattr].
+       gen_TexNode_getattr gen_TexNode_init
+       gen_TexNode_str gen_TexEnv_str gen_TexCmd_str gen_TexText_str gen_TexArgs_str].
 
 Ltac fin := cbn [finish name_contents m_gen m_tolist
        gen_TexExpr_all gen_TexExpr_children gen_TexExpr_contents gen_TexExpr_match gen_TexEnv_match
@@ -385,11 +432,11 @@ Ltac fin := cbn [finish name_contents m_gen m_tolist
 
 Ltac st :=
   repeat first
-    [ rewrite eval_filter | rewrite eval_map | rewrite eval_chainstar
+    [ rewrite eval_filter | rewrite eval_map | rewrite eval_chainstar | rewrite eval_join
     | rewrite exec_cons | rewrite exec_nil | rewrite exec_expr | rewrite exec_assign
     | rewrite exec_setparent | rewrite exec_setitem | rewrite exec_return | rewrite exec_yield
     | rewrite exec_yieldfrom | rewrite exec_assert | rewrite exec_if | rewrite exec_for
-    | rewrite exec_for2 | rewrite exec_try
+    | rewrite exec_for2 | rewrite exec_try | rewrite exec_break
     | progress ev ].
 
 Ltac evh := repeat progress (st; cbn [get_attr isspace_of str_of len_of is_strlike is_texexpr is_env
@@ -407,8 +454,8 @@ Proof. reflexivity. Qed.
 
 Definition cont_b : block :=
   blk [SIf (TIsInst (TVar 0) [CTexText]) (blk [SAssign 0 (TAttr A_text_ (TVar 0))]) (blk []);
-       SAssign 1 (TAnd (TIsInst (TVar 0) [CStr]) (TIsSpace (TVar 0)));
-       SIf (TOr (TNot (TVar 1)) (TAttr A_preserve_whitespace TSelf))
+       SIf (TOr (TNot (TAnd (TIsInst (TVar 0) [CStr]) (TIsSpace (TVar 0))))
+                (TAttr A_preserve_whitespace TSelf))
            (blk [SYield (TVar 0)]) (blk [])].
 
 Lemma body_E_contents :
@@ -417,6 +464,7 @@ Proof. reflexivity. Qed.
 
 Definition shape3 (en : env) : Prop := exists a b c, en = [a; b; c].
 Definition shape2 (en : env) : Prop := exists a b, en = [a; b].
+Definition shape1 (en : env) : Prop := exists a, en = [a].
 
 (* `for x in l: yield x` *)
 Lemma yield_loop3 c callf self k x l en h acc :
@@ -437,11 +485,48 @@ Proof.
     f_equal. clear. induction l as [|v l IH]; [reflexivity|]. cbn [flat_map app]. rewrite IH. reflexivity.
 Qed.
 
+Lemma set_var_length : forall en x v, x < length en -> length (set_var en x v) = length en.
+Proof.
+  induction en as [|a en IH]; intros x v Hx; [cbn [length] in Hx; lia|].
+  destruct x as [|x]; cbn [set_var length]; [reflexivity|].
+  rewrite IH; [reflexivity|]. cbn [length] in Hx. lia.
+Qed.
+
+Lemma lookup_set_var : forall en x v, lookup (set_var en x v) x = Some v.
+Proof.
+  unfold lookup. intros en x; revert en.
+  induction x as [|x IH]; intros en v; destruct en as [|a en]; cbn [set_var nth_error]; try reflexivity.
+  - apply (IH []).
+  - apply IH.
+Qed.
+
+(* `for x in l: yield x`, any environment that has slot x *)
+Lemma yield_loop c callf self k x l : forall en h acc, x < length en ->
+  exists en', for_loop (exec_block c callf self k (blk [SYield (TVar x)])) x l en h acc
+              = XNormal en' h (acc ++ l) /\ length en' = length en.
+Proof.
+  induction l as [|v l IH]; intros en h acc Hx.
+  - exists en. rewrite for_loop_nil, app_nil_r. split; reflexivity.
+  - rewrite for_loop_cons.
+    assert (Hb : exec_block c callf self k (blk [SYield (TVar x)]) (set_var en x v) h acc
+                 = XNormal (set_var en x v) h (acc ++ [v])).
+    { cbn [blk]. rewrite exec_cons, exec_yield.
+      change (eval c callf self k (TVar x) (set_var en x v) h) with (lift (lookup (set_var en x v) x) h).
+      rewrite lookup_set_var. cbn [lift with_val]. rewrite exec_nil. reflexivity. }
+    rewrite Hb.
+    destruct (IH (set_var en x v) h (acc ++ [v])) as (en' & Hl & Hlen);
+      [rewrite set_var_length; assumption|].
+    exists en'. rewrite Hl, <- app_assoc, set_var_length in *; try assumption. split; [reflexivity|exact Hlen].
+Qed.
+
+Lemma length2_shape (en : env) : length en = 2 -> shape2 en.
+Proof. destruct en as [|a [|b [|c0 en]]]; intro H; try discriminate H. exists a, b. reflexivity. Qed.
+
 (* one iteration of TexExpr.contents *)
-Lemma cont_b_step c callf p e k o0 o1 x h acc :
+Lemma cont_b_step c callf p e k o0 x h acc :
   is_texexpr e = true ->
-  exec_block c callf (VExpr p e) k cont_b (set_var [o0; o1] 0 (VExpr None x)) h acc
-  = XNormal [Some (VExpr None (unwrap x)); Some (VBool (is_blank x))] h
+  exec_block c callf (VExpr p e) k cont_b (set_var [o0] 0 (VExpr None x)) h acc
+  = XNormal [Some (VExpr None (unwrap x))] h
             (acc ++ if is_blank x then [] else [VExpr None (unwrap x)]).
 Proof.
   intro He. unfold cont_b.
@@ -495,16 +580,16 @@ Proof.
   rewrite (res_E k0 M_all gen_TexExpr_all Hk0n eq_refl eq_refl). st.
   rewrite (IH e k0 p h Hok He Hk0n) by lia. st.
   destruct (for_loop_inv (run_block gen_v_cls (call n gen_v_cls) (VExpr p e) KExpr cont_b) 0
-              (fun en' h' => shape2 en' /\ h' = h)
+              (fun en' h' => shape1 en' /\ h' = h)
               (fun v => match v with
                         | VExpr _ x => if is_blank x then [] else [VExpr None (unwrap x)]
                         | _ => []
                         end)
-              (map (VExpr None) (expr_all e))) with (en := [@None value; None]) (h := h) (acc := @nil value)
+              (map (VExpr None) (expr_all e))) with (en := [@None value]) (h := h) (acc := @nil value)
     as (en' & h' & Hl & _ & ->).
-  - intros v en0 h0 acc0 Hv [(o0 & o1 & ->) ->].
+  - intros v en0 h0 acc0 Hv [(o0 & ->) ->].
     apply in_map_iff in Hv. destruct Hv as (x & <- & _). unfold run_block.
-    rewrite (cont_b_step _ _ p e KExpr o0 o1 x h acc0 He).
+    rewrite (cont_b_step _ _ p e KExpr o0 x h acc0 He).
     eexists; eexists; split; [reflexivity|]. split; [repeat eexists|reflexivity].
   - split; [repeat eexists|reflexivity].
   - rewrite Hl. st. fin. rewrite clean_vals, retag_tagged, expr_contents_eq. reflexivity.
@@ -631,6 +716,103 @@ Proof. intro H. unfold of_item. rewrite H. reflexivity. Qed.
 
 Lemma of_item_str it : is_texexpr (snd it) = false -> of_item it = VExpr (Some (fst it)) (snd it).
 Proof. intro H. unfold of_item. rewrite H. reflexivity. Qed.
+
+(* ---- TexNode.__init__: the translated constructor builds what the primitive
+   TexNode(x) of the interpreter (TNewNode) builds: the wrapper with parent
+   None for a TexExpr, AssertionError for a Token / str *)
+
+Lemma gen_N_init_ok n p e h :
+  new_node n gen_v_cls [VExpr p e] h
+  = if is_texexpr e then ODone (RVal (VNode p e PNone)) h else ODone (RExc XAssertion) h.
+Proof.
+  unfold new_node. cbn [gen_v_cls]. ev. cbn [m_body gen_TexNode_init].
+  destruct (is_texexpr e) eqn:He; do 4 (st; rewrite ?He); cbn [init_fields length m_params gen_TexNode_init lookup nth_error];
+    reflexivity.
+Qed.
+
+Theorem gen_new_node_is_init c0 callf self k n x p e en h :
+  lookup en x = Some (VExpr p e) ->
+  eval c0 callf self k (TNewNode (TVar x)) en h = of_outcome (new_node n gen_v_cls [VExpr p e] h).
+Proof.
+  intro Hx. rewrite gen_N_init_ok. cbn [eval]. rewrite Hx. cbn [lift].
+  destruct (is_texexpr e); reflexivity.
+Qed.
+
+(* ---- the __str__ methods: each translated body, run on an object of its
+   class with Tree.estr as the meaning of the str() calls on the parts, returns
+   Tree.estr of the object: the primitive reading of str() (ViewDSL.str_of) is
+   the solution of the translated equations.  The proofs only compute (they do
+   not mention the shape of the bodies), so an equivalent rewriting of a
+   __str__ passes and a changed one fails here. *)
+
+Lemma map_loop_str c f s k x l en h :
+  map_loop (run_tm c f s k (TStrOf (TVar x))) x (map (VExpr None) l) en h
+  = AV (map (fun e => VStr (estr e)) l) h.
+Proof.
+  rewrite (map_loop_ok _ x (fun v => match v with VExpr _ e => VStr (estr e) | _ => VNone end)).
+  - rewrite map_map. reflexivity.
+  - intros v Hv. apply in_map_iff in Hv. destruct Hv as (e & <- & _).
+    unfold run_tm. cbn [eval]. rewrite lookup_set_var. reflexivity.
+Qed.
+
+Lemma join_estr l : join_strs [] (map (fun e => VStr (estr e)) l) = Some (estr_list l).
+Proof.
+  unfold estr_list. induction l as [|x l IH]; [reflexivity|].
+  cbn [map join_strs concat]. destruct l as [|y l].
+  - cbn [map concat]. rewrite app_nil_r. reflexivity.
+  - cbn [map] in *. rewrite IH. reflexivity.
+Qed.
+
+Lemma is_nil_map {A B} (g : A -> B) l :
+  match map g l with [] => false | _ :: _ => true end
+  = match l with [] => false | _ :: _ => true end.
+Proof. destruct l; reflexivity. Qed.
+
+Ltac stf :=
+  repeat first
+    [ rewrite eval_join | rewrite eval_format | rewrite run_args_cons | rewrite run_args_nil
+    | rewrite run_tm_app
+    | rewrite exec_cons | rewrite exec_nil | rewrite exec_expr | rewrite exec_assign
+    | rewrite exec_return | rewrite exec_assert | rewrite exec_if | rewrite exec_for
+    | progress ev ].
+
+Ltac strs :=
+  repeat progress (stf; cbn [get_attr is_texexpr is_env raw_contents expr_args expr_name expr_begin expr_end
+                             str_of format_strs val_eqb option_map lift_b];
+                   rewrite ?map_loop_str, ?heap_eqb_refl, ?join_estr, ?is_nil_map).
+
+Lemma gen_str_node_ok p e par h :
+  run_plain gen_v_cls gen_TexNode_str (VNode p e par) h = ODone (RVal (VStr (estr e))) h.
+Proof. unfold run_plain. ev. cbn [m_body gen_TexNode_str]. strs. fin. reflexivity. Qed.
+
+Lemma gen_str_text_ok p t h :
+  run_plain gen_v_cls gen_TexText_str (VExpr p (EText t)) h = ODone (RVal (VStr (estr (EText t)))) h.
+Proof. unfold run_plain. ev. cbn [m_body gen_TexText_str]. strs. fin. reflexivity. Qed.
+
+Lemma gen_str_args_ok l h :
+  run_plain gen_v_cls gen_TexArgs_str (VArgs l) h = ODone (RVal (VStr (estr_list l))) h.
+Proof. unfold run_plain. ev. cbn [m_body gen_TexArgs_str]. strs. fin. reflexivity. Qed.
+
+Lemma gen_str_cmd_ok p n a b pos h :
+  run_plain gen_v_cls gen_TexCmd_str (VExpr p (ECmd n a b pos)) h
+  = ODone (RVal (VStr (estr (ECmd n a b pos)))) h.
+Proof.
+  unfold run_plain. ev. cbn [m_body gen_TexCmd_str].
+  destruct b as [|x b]; strs; fin; cbn [estr estr_list map concat app]; rewrite ?app_nil_r; reflexivity.
+Qed.
+
+Lemma gen_str_env_ok p e h : is_env e = true ->
+  run_plain gen_v_cls gen_TexEnv_str (VExpr p e) h = ODone (RVal (VStr (estr e))) h.
+Proof.
+  intro He. unfold run_plain. ev. cbn [m_body gen_TexEnv_str].
+  destruct e as [t|s0 q|s0|n a b q|n a b q|k b q|k b q|b]; try discriminate He.
+  - strs. cbn [env_begin s_begin_open app]. strs.
+    destruct (str_eqb n [91; 116; 101; 120; 93]%N); strs; fin;
+      cbn [estr estr_list app]; rewrite ?app_nil_r, <- ?app_assoc; reflexivity.
+  - destruct k; strs; fin; cbn [estr estr_list app map concat]; rewrite ?app_nil_r; reflexivity.
+  - destruct k; strs; fin; cbn [estr estr_list app map concat]; rewrite ?app_nil_r; reflexivity.
+  - strs. fin. reflexivity.
+Qed.
 
 (* ---- TexNode.contents *)
 
@@ -852,7 +1034,7 @@ Proof.
   intros q e par h i Hok He Hn. destruct n as [|n]; [lia|].
   rewrite call_S, (res_N M_getitem gen_TexNode_getitem eq_refl).
   change (m_body gen_TexNode_getitem)
-    with (blk [SReturn (TIndex (TList (TProp M_contents TSelf)) (TVar 0))]).
+    with (blk [SReturn (TIndex (TProp M_contents TSelf) (TVar 0))]).
   st. unfold call_on. cbn [kind_of]. rewrite (res_N M_contents gen_TexNode_contents eq_refl). st.
   rewrite (gen_N_contents_ok n q e par h Hok He) by lia. st.
   rewrite py_nth_map. unfold getitem_result.
@@ -945,7 +1127,8 @@ Proof. apply gen_N_desc_priv. Qed.
 Definition text_b : block :=
   blk [SIf (TIsInst (TVar 0) [CStr])
            (blk [SYield (TVar 0)])
-           (blk [SIf (THasattr (TVar 0) M_text) (blk [SYieldFrom (TProp M_text (TVar 0))]) (blk [])])].
+           (blk [SIf (THasattr (TVar 0) M_text)
+                     (blk [SFor 1 (TProp M_text (TVar 0)) (blk [SYield (TVar 1)])]) (blk [])])].
 
 Lemma body_N_text :
   m_body gen_TexNode_text = blk [SFor 0 (TProp M_contents TSelf) text_b].
@@ -977,10 +1160,10 @@ Proof.
   st. unfold call_on. cbn [kind_of]. rewrite (res_N M_contents gen_TexNode_contents eq_refl). st.
   rewrite (gen_N_contents_ok n q e par h Hok He) by lia. st.
   destruct (for_loop_inv (run_block gen_v_cls (call n gen_v_cls) (VNode (Some q) e par) KNode text_b) 0
-              (fun en' h' => (exists o, en' = [o]) /\ h' = h) text_f1
-              (map of_item (contents (q, e)))) with (en := [@None value]) (h := h) (acc := @nil value)
+              (fun en' h' => shape2 en' /\ h' = h) text_f1
+              (map of_item (contents (q, e)))) with (en := [@None value; None]) (h := h) (acc := @nil value)
     as (en' & h' & Hl & _ & ->).
-  - intros v en0 h0 acc0 Hv [(o0 & ->) ->].
+  - intros v en0 h0 acc0 Hv [(o0 & o1 & ->) ->].
     apply in_map_iff in Hv. destruct Hv as ([pth x] & <- & Hc).
     pose proof (args_ok_item (q, e) (pth, x) Hok Hc) as Hokx. cbn [snd] in Hokx.
     destruct (is_strlike x) eqn:Hs.
@@ -989,7 +1172,7 @@ Proof.
       apply contents_item_cases in Hc'. cbn [snd] in Hc'. destruct Hc' as [_ [Hnode|[_ Hnt]]].
       { destruct x; discriminate. }
       unfold run_block, text_b, of_item. cbn [fst snd]. rewrite Hnt. st. rewrite Hs. st.
-      eexists; eexists; split; [reflexivity|]. split; [eexists; reflexivity|reflexivity].
+      eexists; eexists; split; [reflexivity|]. split; [repeat eexists|reflexivity].
     + (* a node *)
       pose proof (not_strlike_node (q, e) (pth, x) Hc Hs) as Hch.
       pose proof (children_depth (q, e) (pth, x) Hch) as Hd. cbn [snd] in Hd.
@@ -999,8 +1182,17 @@ Proof.
       rewrite (IH pth x _ h Hokx (node_texexpr _ Hnode)) by lia. st.
       unfold call_on. cbn [kind_of]. rewrite (res_N M_text gen_TexNode_text eq_refl). st.
       rewrite (IH pth x _ h Hokx (node_texexpr _ Hnode)) by lia. st.
-      eexists; eexists; split; [reflexivity|]. split; [eexists; reflexivity|reflexivity].
-  - split; [eexists; reflexivity|reflexivity].
+      match goal with
+      | |- context [for_loop ?b 1 ?l ?EN h acc0] =>
+        destruct (yield_loop gen_v_cls (call n gen_v_cls) (VNode (Some q) e par) KNode 1 l EN h acc0)
+          as (en1 & Hy & Hlen); [cbn [length]; lia|];
+        change (for_loop b 1 l EN h acc0)
+          with (for_loop (exec_block gen_v_cls (call n gen_v_cls) (VNode (Some q) e par) KNode
+                                     (blk [SYield (TVar 1)])) 1 l EN h acc0)
+      end.
+      rewrite Hy. st.
+      eexists; eexists; split; [reflexivity|]. split; [apply length2_shape; exact Hlen|reflexivity].
+  - split; [repeat eexists|reflexivity].
   - rewrite Hl. st. fin. do 3 f_equal. unfold text_vals. rewrite (text_eq (q, e)).
     rewrite map_flat_map, flat_map_of_map.
     apply flat_map_ext_in. intros [pth x] Hc.
@@ -1053,17 +1245,16 @@ Definition match_post (q : query) (h : heap) (a : nat) (b : bool) (o : outcome) 
   exists d', dict_ok q d' /\ o = ODone (RVal (VBool b)) (heap_set h a d').
 
 Definition match_b : block :=
-  blk [SIf (TNe (TGetattr TSelf (TVar 3)) (TVar 4)) (blk [SReturn (TBool false)]) (blk [])].
+  blk [SIf (TNe (TGetattr TSelf (TVar 2)) (TVar 3)) (blk [SReturn (TBool false)]) (blk [])].
 
 Lemma body_E_match :
   m_body gen_TexExpr_match
   = blk [SIf (TOr (TIn (TStr [123]%N) (TVar 0)) (TIn (TStr [91]%N) (TVar 0)))
              (blk [SReturn (TEq (TStrOf TSelf) (TVar 0))]) (blk []);
          SIf (TIsInst (TVar 0) [CList])
-             (blk [SAssign 2 (TGetattr TSelf (TStr [110; 97; 109; 101]%N));
-                   SIf (TNotIn (TVar 2) (TVar 0)) (blk [SReturn (TBool false)]) (blk [])])
+             (blk [SIf (TNotIn (TAttr A_name TSelf) (TVar 0)) (blk [SReturn (TBool false)]) (blk [])])
              (blk [SSetItem 1 [110; 97; 109; 101]%N (TVar 0)]);
-         SFor2 3 4 (TItems (TVar 1)) match_b;
+         SFor2 2 3 (TItems (TVar 1)) match_b;
          SReturn (TBool true)].
 Proof. reflexivity. Qed.
 
@@ -1110,7 +1301,7 @@ Proof.
     { exists d. split; [exact Hok|]. fin. rewrite (heap_set_same h a d Hd). reflexivity. }
     destruct (mem_str [91%N] l) eqn:E2; stv.
     { exists d. split; [exact Hok|]. fin. rewrite (heap_set_same h a d Hd). reflexivity. }
-    rewrite attr_of_str_name. cbn [get_attr]. rewrite He. stv.
+    cbn [get_attr]. rewrite He. stv.
     exists d. split; [exact Hok|]. rewrite (heap_set_same h a d Hd).
     destruct (mem_str (expr_name e) l); stv.
     + rewrite Hd. cbn [dict_ok] in Hok. subst d. cbn [items_of map for_loop2]. stv. fin. reflexivity.
@@ -1180,13 +1371,47 @@ Qed.
 (* ================================================================== *)
 (* find_all / find / count / __getattr__                               *)
 
+(* TexNode.find_all is proved for two texts of the method (whichever of them the
+   translator produced is used for C03gen_find_all; both proofs are checked on
+   every run, they do not depend on the generated body):
+     A  for d in self.__descendants():
+            if hasattr(d, '__match__') and d.__match__(name, attrs): yield d
+     B  the same with an optional `limit=None` keyword: a counter of the matches
+        and `if limit is not None and n_found >= limit: break` at the head of
+        the loop (with limit = None the test is False: never taken) *)
+
+(* the body d of a TexNode method run with `call n gen_v_cls` for the calls it makes *)
+Definition run_def (n : nat) (m : mname) (d : mdef) (self : value) (vs : list value)
+           (kw : option dict) (h : heap) : outcome :=
+  match bind d vs kw h with
+  | Some (en, h1) =>
+    name_contents KNode m self
+      (finish d (exec_block gen_v_cls (call n gen_v_cls) self KNode (m_body d) en h1 []))
+  | None => OUnsup
+  end.
+
+Lemma call_run_def n m d self vs kw h :
+  gen_v_cls KNode m = Some d ->
+  call (S n) gen_v_cls KNode m self vs kw h = run_def n m d self vs kw h.
+Proof. intro H. rewrite call_S, (res_N m d H). reflexivity. Qed.
+
 Definition fa_b : block :=
   blk [SIf (TAnd (THasattr (TVar 2) M_match) (TCall M_match (TVar 2) (tms_of [TVar 0; TVar 1])))
            (blk [SYield (TVar 2)]) (blk [])].
 
-Lemma body_N_find_all :
-  m_body gen_TexNode_find_all = blk [SFor 2 (TCall M_priv_descendants TSelf (tms_of [])) fa_b].
-Proof. reflexivity. Qed.
+Definition fa_def_A : mdef :=
+  mkM [Some VNone] [[110; 97; 109; 101]%N] true 1 true true false
+      (blk [SFor 2 (TCall M_priv_descendants TSelf (tms_of [])) fa_b]).
+
+Definition fa_b2 : block :=
+  blk [SIf (TAnd (TNot (TIsNone (TVar 1))) (TCmp OGe (TVar 3) (TVar 1))) (blk [SBreak]) (blk []);
+       SIf (TAnd (THasattr (TVar 4) M_match) (TCall M_match (TVar 4) (tms_of [TVar 0; TVar 2])))
+           (blk [SYield (TVar 4); SAssign 3 (TAdd (TVar 3) (TInt 1))]) (blk [])].
+
+Definition fa_def_B : mdef :=
+  mkM [Some VNone; Some VNone] [[110; 97; 109; 101]%N; [108; 105; 109; 105; 116]%N] true 2 true true false
+      (blk [SAssign 3 (TInt 0);
+            SFor 4 (TCall M_priv_descendants TSelf (tms_of [])) fa_b2]).
 
 Lemma match_item_texexpr q x : match_item q x = true -> is_texexpr x = true.
 Proof. destruct x; intro H; try discriminate H; reflexivity. Qed.
@@ -1215,19 +1440,19 @@ Qed.
 Lemma nth_error_snoc {A} (l : list A) x : nth_error (l ++ [x]) (length l) = Some x.
 Proof. rewrite nth_error_app2 by lia. rewrite Nat.sub_diag. reflexivity. Qed.
 
-Lemma gen_N_find_all_ok n q0 e par q h kw :
-  args_ok e = true -> is_texexpr e = true -> 2 * edepth e + 6 <= n ->
+Lemma fa_shape_A_ok n q0 e par q h kw :
+  args_ok e = true -> is_texexpr e = true -> 2 * edepth e + 5 <= n ->
   kw = None \/ kw = Some [] ->
   exists h',
-    call n gen_v_cls KNode M_find_all (VNode (Some q0) e par) [qval q] kw h
+    run_def n M_find_all fa_def_A (VNode (Some q0) e par) [qval q] kw h
     = ODone (RVal (VList (map of_item (find_all q (q0, e))))) h'.
 Proof.
-  intros Hok He Hn Hkw. destruct n as [|n]; [lia|].
-  assert (Hk : call (S n) gen_v_cls KNode M_find_all (VNode (Some q0) e par) [qval q] kw h
-               = call (S n) gen_v_cls KNode M_find_all (VNode (Some q0) e par) [qval q] (Some []) h)
+  intros Hok He Hn Hkw.
+  assert (Hk : run_def n M_find_all fa_def_A (VNode (Some q0) e par) [qval q] kw h
+               = run_def n M_find_all fa_def_A (VNode (Some q0) e par) [qval q] (Some []) h)
     by (destruct Hkw as [->| ->]; reflexivity).
   rewrite Hk. clear Hk Hkw kw.
-  rewrite call_S, (res_N M_find_all gen_TexNode_find_all eq_refl), body_N_find_all.
+  unfold run_def, fa_def_A. cbn [m_body].
   st. unfold call_on. cbn [kind_of].
   rewrite (res_N M_priv_descendants gen_TexNode_priv_descendants eq_refl). st.
   rewrite (gen_N_priv_descendants_ok n q0 e par _ Hok He) by lia. unfold desc_vals. st.
@@ -1269,6 +1494,72 @@ Proof.
   - rewrite Hl. st. fin. rewrite fa_f_filter. exists h'. reflexivity.
 Qed.
 
+Lemma fa_shape_B_ok n q0 e par q h kw :
+  args_ok e = true -> is_texexpr e = true -> 2 * edepth e + 5 <= n ->
+  kw = None \/ kw = Some [] ->
+  exists h',
+    run_def n M_find_all fa_def_B (VNode (Some q0) e par) [qval q] kw h
+    = ODone (RVal (VList (map of_item (find_all q (q0, e))))) h'.
+Proof.
+  intros Hok He Hn Hkw.
+  assert (Hk : run_def n M_find_all fa_def_B (VNode (Some q0) e par) [qval q] kw h
+               = run_def n M_find_all fa_def_B (VNode (Some q0) e par) [qval q] (Some []) h)
+    by (destruct Hkw as [->| ->]; reflexivity).
+  rewrite Hk. clear Hk Hkw kw.
+  unfold run_def, fa_def_B. cbn [m_body].
+  st. unfold call_on. cbn [kind_of].
+  rewrite (res_N M_priv_descendants gen_TexNode_priv_descendants eq_refl). st.
+  rewrite (gen_N_priv_descendants_ok n q0 e par _ Hok He) by lia. unfold desc_vals. st.
+  set (a := length h).
+  match goal with
+  | |- context [for_loop ?b ?x ?l ?EN ?HH ?ACC] =>
+    destruct (for_loop_inv b x
+                (fun en' h' => (exists k o, en' = [Some (qval q); Some VNone; Some (VDict a); Some (VInt k); o])
+                               /\ exists d, nth_error h' a = Some d /\ dict_ok q d)
+                (fa_f q) l) with (en := EN) (h := HH) (acc := ACC)
+      as (en' & h' & Hl & _)
+  end.
+  - intros v en0 h0 acc0 Hv [(k & o & ->) (d & Hd & Hdok)].
+    apply in_map_iff in Hv. destruct Hv as ([pth x] & <- & _).
+    unfold run_block, fa_b2, of_item. cbn [fst snd].
+    destruct (is_texexpr x) eqn:Ht.
+    + st. unfold has_attr. cbn [kind_of]. rewrite (res_N M_match gen_TexNode_match eq_refl). st.
+      unfold call_on. cbn [kind_of]. rewrite (res_N M_match gen_TexNode_match eq_refl). st.
+      replace n with (S (S (S (n - 3)))) by lia.
+      destruct (gen_N_match_ok (n - 3) (Some pth) x (PNode (Some (parent_path pth))) q a h0 d Ht Hd Hdok)
+        as (d' & Hdok' & Hc).
+      rewrite Hc. st. cbn [fa_f].
+      exists [Some (qval q); Some VNone; Some (VDict a);
+              Some (VInt (if match_item q x then k + 1 else k));
+              Some (VNode (Some pth) x (PNode (Some (parent_path pth))))],
+             (heap_set h0 a d').
+      split.
+      * destruct (match_item q x); st; [reflexivity|rewrite app_nil_r; reflexivity].
+      * split; [eexists; eexists; reflexivity|].
+        exists d'. split; [exact (heap_set_nth h0 a d d' Hd)|exact Hdok'].
+    + st. unfold has_attr. cbn [kind_of]. rewrite (not_texexpr_not_env x Ht), Ht. st.
+      cbn [fa_f]. rewrite app_nil_r.
+      eexists; eexists; split; [reflexivity|]. split; [eexists; eexists; reflexivity|].
+      exists d. split; assumption.
+  - split; [eexists; eexists; reflexivity|]. exists []. split; [apply nth_error_snoc|].
+    destruct q; [left|]; reflexivity.
+  - rewrite Hl. st. fin. rewrite fa_f_filter. exists h'. reflexivity.
+Qed.
+
+Lemma gen_N_find_all_ok n q0 e par q h kw :
+  args_ok e = true -> is_texexpr e = true -> 2 * edepth e + 6 <= n ->
+  kw = None \/ kw = Some [] ->
+  exists h',
+    call n gen_v_cls KNode M_find_all (VNode (Some q0) e par) [qval q] kw h
+    = ODone (RVal (VList (map of_item (find_all q (q0, e))))) h'.
+Proof.
+  intros Hok He Hn Hkw. destruct n as [|n]; [lia|].
+  rewrite (call_run_def n M_find_all gen_TexNode_find_all _ _ _ _ eq_refl).
+  first [ change gen_TexNode_find_all with fa_def_A; apply fa_shape_A_ok
+        | change gen_TexNode_find_all with fa_def_B; apply fa_shape_B_ok ];
+    first [assumption | lia].
+Qed.
+
 Lemma body_N_find :
   m_body gen_TexNode_find
   = blk [STryReturn (TIndex (TCallKw M_find_all TSelf (tms_of [TVar 0]) (TVar 1)) (TInt 0%Z)) XIndex
@@ -1306,7 +1597,7 @@ Proof.
   intros Hok He Hn. destruct n as [|n]; [lia|].
   rewrite call_S, (res_N M_count gen_TexNode_count eq_refl).
   change (m_body gen_TexNode_count)
-    with (blk [SReturn (TLen (TList (TCallKw M_find_all TSelf (tms_of [TVar 0]) (TVar 1))))]).
+    with (blk [SReturn (TLen (TCallKw M_find_all TSelf (tms_of [TVar 0]) (TVar 1)))]).
   st. rewrite nth_error_snoc. unfold call_on. cbn [kind_of].
   rewrite (res_N M_find_all gen_TexNode_find_all eq_refl). st.
   match goal with
@@ -1763,6 +2054,21 @@ Proof. split; vm_compute; reflexivity. Qed.
 Example ex_all_asserts :
   run_node gen_v_cls M_all PNone ([], EGroup GBrace [ERaw [120%N] 0%Z] 0%Z) [] = Some (RExc XAssertion).
 Proof. vm_compute. reflexivity. Qed.
+
+Example ex_new_node :
+  new_node 0 gen_v_cls [VExpr (Some [1]) (ECmd [97%N] [] [] 0%Z)] []
+  = ODone (RVal (VNode (Some [1]) (ECmd [97%N] [] [] 0%Z) PNone)) []
+  /\ new_node 0 gen_v_cls [VExpr None (EStr [120%N])] [] = ODone (RExc XAssertion) []
+  /\ lookup [Some (VExpr None (EStr [120%N]))] 0 = Some (VExpr None (EStr [120%N])).
+Proof. repeat split; vm_compute; reflexivity. Qed.
+
+Example ex_str_env :
+  is_env (ENamed [105; 116]%N [EGroup GBrace [EStr [97%N]] 0%Z] [EStr [98%N]] 0%Z) = true
+  /\ run_plain gen_v_cls gen_TexEnv_str
+       (VExpr None (ENamed [105; 116]%N [EGroup GBrace [EStr [97%N]] 0%Z] [EStr [98%N]] 0%Z)) []
+     = ODone (RVal (VStr (estr (ENamed [105; 116]%N [EGroup GBrace [EStr [97%N]] 0%Z] [EStr [98%N]] 0%Z)))) []
+  /\ length (estr (ENamed [105; 116]%N [EGroup GBrace [EStr [97%N]] 0%Z] [EStr [98%N]] 0%Z)) = 22.
+Proof. repeat split; vm_compute; reflexivity. Qed.
 
 Example ex_getitem_index_error :
   run_node gen_v_cls M_getitem PNone ex_root [VInt 5] = Some (RExc XIndex)
